@@ -305,34 +305,44 @@ def _limits_case(sc, tmpdir):
             cfg = _need(AX, "_config")
             eff = int(cfg.max_memory_size)
             data = Path(sc["archive_file"]).read_bytes()
-            # zip
+            # Entries are identified by the archive's own entry OBJECT (position in infolist() / getmembers()),
+            # never by name: two entries may carry one name, and a tar link entry yields another entry's bytes.
+            # zip: every decompression goes through ZipFile.open (ZipFile.read calls it)
             zopen = zipfile.ZipFile.open
 
             def wopen(self, name, mode="r", *a, **k):
-                nm = name.filename if isinstance(name, zipfile.ZipInfo) else name
                 if mode == "r":
-                    ev.append({"a": "Decompress", "m": nm, "to": "mem"})
+                    zi = name if isinstance(name, zipfile.ZipInfo) else self.getinfo(name)
+                    idx = next((i for i, x in enumerate(self.infolist(), start=1) if x is zi), 0)
+                    if not idx:
+                        idx = next((i for i, x in enumerate(self.infolist(), start=1)
+                                    if x.header_offset == zi.header_offset), 0)
+                    ev.append({"a": "Decompress", "m": idx, "to": "mem"})
                 return zopen(self, name, mode, *a, **k)
             zipfile.ZipFile.open = wopen
             zext = zipfile.ZipFile._extract_member
 
             def wext(self, member, *a, **k):
-                nm = member.filename if isinstance(member, zipfile.ZipInfo) else member
-                ev.append({"a": "Write", "m": nm})
+                zi = member if isinstance(member, zipfile.ZipInfo) else self.getinfo(member)
+                ev.append({"a": "Write", "m": next((i for i, x in enumerate(self.infolist(), start=1) if x is zi), 0)})
                 return zext(self, member, *a, **k)
             zipfile.ZipFile._extract_member = wext
-            # tar
-            tef = tarfile.TarFile.extractfile
+            # tar: the bytes of an entry are read through TarFile.fileobject(tarfile, tarinfo) -- extractfile()
+            # resolves hard / symbolic links first and hands the TARGET entry to it
+            texf = _need(tarfile.TarFile, "fileobject")
 
-            def wtef(self, member):
-                nm = member.name if isinstance(member, tarfile.TarInfo) else member
-                ev.append({"a": "Decompress", "m": nm, "to": "mem"})
-                return tef(self, member)
-            tarfile.TarFile.extractfile = wtef
+            def tindex(tf, tarinfo):
+                return next((i for i, x in enumerate(tf.getmembers(), start=1)
+                             if x is tarinfo or x.offset == tarinfo.offset), 0)
+
+            def wfileobject(tf, tarinfo):
+                ev.append({"a": "Decompress", "m": tindex(tf, tarinfo), "to": "mem"})
+                return texf(tf, tarinfo)
+            tarfile.TarFile.fileobject = staticmethod(wfileobject)
             tex = tarfile.TarFile._extract_member
 
             def wtex(self, tarinfo, *a, **k):
-                ev.append({"a": "Write", "m": tarinfo.name})
+                ev.append({"a": "Write", "m": tindex(self, tarinfo)})
                 return tex(self, tarinfo, *a, **k)
             tarfile.TarFile._extract_member = wtex
             # 7z: folder decompression (after header parsing) and disk writes (audit hook)
@@ -357,20 +367,62 @@ def _limits_case(sc, tmpdir):
                     return out
                 SZ.SevenZipReader._decompress_folder = wdec
 
+                written, via_proxy = {}, {}
+                import builtins
+
+                # which ENTRY is written is read off the bytes (entry i is filled with the byte value i): the
+                # module-level `open` of sevenzip.py is shadowed by a recording proxy ...
+                class W:
+                    def __init__(self, f):
+                        self._f, self._seen = f, False
+
+                    def write(self, data):
+                        if not self._seen and len(data):
+                            self._seen = True
+                            ev.append({"a": "Write", "m": int(data[0])})
+                        return self._f.write(data)
+
+                    def __enter__(self):
+                        return self
+
+                    def __exit__(self, *a):
+                        self._f.close()
+
+                    def __getattr__(self, k):
+                        return getattr(self._f, k)
+
+                def sz_open(path, mode="r", *a, **k):
+                    p = os.fspath(path)
+                    if isinstance(p, str) and p.startswith(tmpdir) and os.path.basename(p) in names and "w" in mode:
+                        via_proxy[p] = via_proxy.get(p, 0) + 1
+                        return W(builtins.open(path, mode, *a, **k))
+                    return builtins.open(path, mode, *a, **k)
+                SZ.open = sz_open
+
+                # ... and any other way of creating the file is still seen by the audit hook (then the k-th write of
+                # a name is taken for the k-th entry of that name)
                 def hook(event, args):
                     if event == "open" and isinstance(args[0], str) and args[0].startswith(tmpdir):
                         fl = args[2] if isinstance(args[2], int) else 0
                         if fl & (os.O_WRONLY | os.O_RDWR | os.O_CREAT):
+                            if via_proxy.get(args[0], 0) > 0:
+                                via_proxy[args[0]] -= 1
+                                return
                             rel = os.path.basename(args[0])
                             if rel in names:
-                                ev.append({"a": "Write", "m": rel})
+                                k = written.get(rel, 0)
+                                written[rel] = k + 1
+                                same = [i for i, nm in enumerate(names, start=1) if nm == rel]
+                                ev.append({"a": "Write", "m": same[k] if k < len(same) else 0})
                 sys.addaudithook(hook)
             # member extractor stub: which members reach an extractor, with how many bytes
             proc = _need(AX, "_get_file_extractor_cached")
 
             def wget(basename):
                 def stub(stream, path=None):
-                    ev.append({"a": "Extract", "m": basename, "n": len(stream.getbuffer())})
+                    buf = stream.getbuffer()
+                    # entry i is filled with the byte value i: the bytes say which entry they came from
+                    ev.append({"a": "Extract", "m": int(buf[0]) if len(buf) else 0, "n": len(buf), "as": basename})
                     return iter(())
                 return stub
             AX._get_file_extractor_cached = wget
